@@ -10,7 +10,7 @@ NOT_PROVED = {
  "C04": [
    "nothing essential: live, across clean restarts (RestartCorollaries.v) and after recovery from any crash image under any policy (CrashCorollaries.crash_next_positions, crash_next_after_persist) next positions are those of a specification state at least as recent as the persist point; power-loss recovery is covered by the oracle only"
   ],
- "C05": [],
+ "C05": ["the model computes in unbounded N: the refinement is about calls whose positions stay below 2^64-1, names below 2^16 bytes and payloads below 2^32 bytes; at the limits the crate panics or wraps (known findings F10, F11)", "calls that fail with an I/O error are outside the refinement statement"],
  "C06": ["the attribution file of a record is the writer's file when its append BEGAN; an append beginning exactly at a file end is attributed to the full file (known finding F5): the theorems are stated with attribution files, the oracle with first-write files",
          "wr_ok (contiguous tracker) is proved preserved by every call and established for fresh directories (Inv); directories opened with numbering gaps are outside"],
  "C07": ["the file-level theorems (file_roundtrip, open_replays_delivered) assume full-size files and a directory that started fresh; short or damaged files are the subject of C02/C10"],
